@@ -34,7 +34,9 @@ class C14(Prop):
         sro.append({'op': 'sro', 'name': [], 'scope': ['A']})
         yield 'sro', sro
         finds = []
-        for _ in range(n):
+        for i in range(n):
+            # every second document uses identifiers that are textual prefixes of one another
+            A = M.NAMES3 if i % 2 == 0 else ['A', 'AB', 'A_', 'B']
             src = M.gen_file(rng, maxdepth=rng.choice([2, 3, 3, 6]), pool=A, n=rng.randint(1, 6))
             ast = M.enc_root(src)
             for _j in range(3):
